@@ -1,5 +1,6 @@
 import ChiModel.Inference
 import ChiProofs.Props.C20
+import ChiProofs.Lemmas.PosteriorLoops
 import Mathlib.Data.List.Nodup
 import Mathlib.Data.List.Perm.Basic
 import Mathlib.Tactic.Linarith
@@ -1758,5 +1759,61 @@ theorem C18_pointwise_shifted_entry (g : Axis × Axis) (off c d : Nat) :
     entrySource (resultAxis false g.1, resultAxis false (g.2.map (fun e => (e.1 + off, e.2)))) c (d + off)
       = entrySource g c d := by
   simp only [resultAxis, Bool.false_eq_true, if_false, entrySource, C18_axis_shift_find]
+
+/-! ## the noise realisations of a population-filter posterior: names against the positions that are read
+
+`get_parameter_names` appends, per simulated individual, `<output> Epsilon time <k>` output by output and time by
+time; `__call__` reads `parameters[end_bottom:].reshape(n_samples, n_observables, n_times)`.  The name found at the
+slot of `ε[s, r, j]` is the one of output `r` and time `j + 1`, for all sizes, and distinct triples have distinct slots
+(so the 'Parameter' column of an optimisation table / the variables of a dataset label what the score uses). -/
+
+/-- The name at the slot the posterior reads as `ε[s, r, j]` is `<output r> Epsilon time <j+1>`. -/
+theorem C18_filter_epsilon_name_slot (top bottom outputs : List String) (T nSim s r j : Nat)
+    (hs : s < nSim) (hr : r < outputs.length) (hj : j < T) :
+    (filterNames top bottom (FP.epsilonNames outputs T) nSim)[
+        epsSlot top.length bottom.length nSim outputs.length T s r j]?
+      = (outputs[r]?).map (fun o => o ++ " Epsilon time " ++ toString (j + 1)) := by
+  have hB : (List.replicate nSim bottom).flatten = FP.replicate' nSim bottom := rfl
+  have hE : (List.replicate nSim (FP.epsilonNames outputs T)).flatten
+      = FP.replicate' nSim (FP.epsilonNames outputs T) := rfl
+  have hEl : (FP.epsilonNames outputs T).length = outputs.length * T := FP.epsilonNames_length outputs T
+  have hrj : r * T + j < outputs.length * T := by
+    have : r * T + T ≤ outputs.length * T := by
+      rw [← Nat.succ_mul]; exact Nat.mul_le_mul_right _ hr
+    omega
+  unfold filterNames epsSlot
+  rw [hB, hE, List.getElem?_append_right (by
+    simp only [List.length_append, FP.replicate'_length]; omega)]
+  simp only [List.length_append, FP.replicate'_length, Nat.add_sub_cancel_left]
+  have h := FP.replicate'_getElem? (FP.epsilonNames outputs T) nSim s (r * T + j) hs (by rw [hEl]; exact hrj)
+  rw [hEl] at h
+  have e : s * (outputs.length * T) + r * T + j = s * (outputs.length * T) + (r * T + j) := by omega
+  rw [e, h]
+  exact FP.epsilonNames_getElem? T outputs r j hr hj
+
+/-- distinct (individual, output, time) triples are read from distinct positions -/
+theorem C18_filter_epsilon_slot_injective (nTop nB nSim R T s r j s' r' j' : Nat)
+    (hr : r < R) (hj : j < T) (hr' : r' < R) (hj' : j' < T)
+    (h : epsSlot nTop nB nSim R T s r j = epsSlot nTop nB nSim R T s' r' j') :
+    s = s' ∧ r = r' ∧ j = j' := by
+  unfold epsSlot at h
+  have h1 : s * (R * T) + (r * T + j) = s' * (R * T) + (r' * T + j') := by omega
+  have hb : r * T + j < R * T := by
+    have : r * T + T ≤ R * T := by rw [← Nat.succ_mul]; exact Nat.mul_le_mul_right _ hr
+    omega
+  have hb' : r' * T + j' < R * T := by
+    have : r' * T + T ≤ R * T := by rw [← Nat.succ_mul]; exact Nat.mul_le_mul_right _ hr'
+    omega
+  have hpos : 0 < R * T := by omega
+  have key : ∀ (m a b c d : Nat), 0 < m → b < m → d < m → a * m + b = c * m + d → a = c ∧ b = d := by
+    intro m a b c d hm hb hd he
+    have h1 := congrArg (· / m) he
+    have h2 := congrArg (· % m) he
+    simp only [Nat.mul_comm _ m, Nat.mul_add_div hm, Nat.mul_add_mod, Nat.div_eq_of_lt hb,
+      Nat.div_eq_of_lt hd, Nat.mod_eq_of_lt hb, Nat.mod_eq_of_lt hd, Nat.add_zero] at h1 h2
+    exact ⟨h1, h2⟩
+  obtain ⟨hs, hrest⟩ := key (R * T) s (r * T + j) s' (r' * T + j') hpos hb hb' h1
+  obtain ⟨hr2, hj2⟩ := key T r j r' j' (by omega) hj hj' hrest
+  exact ⟨hs, hr2, hj2⟩
 
 end ChiModel.Inference
